@@ -43,7 +43,7 @@ reg('C16', 'exhaustive string × position enumeration + Hypothesis token strings
     'Non-termination would show as a CPU-time watchdog expiry (20 s); absence of violations beyond the enumerated length is sampled, not shown.')
 
 reg('C01', 'exhaustive operator-skeleton enumeration + Hypothesis grammar-directed scripts; differential against a reference interpreter/renderer derived from the same script',
-    'Every operator skeleton (> + ^ ^^, groups nested ≤ 2, optional *2 on every element/group) with ≤ 3 elements (quick) / ≤ 4 elements plus the 5-element nesting-≤-1 space (thorough, ≈ 6.6·10^6 scripts) '
+    'Every operator skeleton (> + ^ ^^, groups nested ≤ 2, optional *2 on every element/group) with ≤ 3 elements (quick) / ≤ 4 elements (thorough, ≈ 4.1·10^6 scripts) '
     'is expanded and compared by exact string equality (format off) and white-space-insensitive equality (format on) with the reference denotation; '
     'Hypothesis scripts up to ~40 items add structural names, implicit names under every parent kind, ^^^, self-closing marks and text, across 5 self-closing-style/syntax configurations.',
     'The generator never writes `>` after a group, a text-only item or a self-closed element, and never uses snippet keys as names; beyond the enumerated skeleton size the space is sampled.')
